@@ -3,6 +3,7 @@ package h_c12
 import "github.com/elys-network/elys/zzvrf/h_c08"
 
 // The lock-up clause through the leveraged-LP entry point (the position's shares are committed at its own address).
+//
 //vrf:cover refused
 //vrf:bound see h_c08.H_Close_ByOwner_WhileLocked
 //vrf:max-paths 3000
